@@ -108,8 +108,8 @@ func c17Edits(q string) []string {
 	}
 	add(q)
 	for _, s := range sp {
-		add(q[:s.lo] + q[s.hi:])                               // delete
-		add(q[:s.hi] + " " + q[s.lo:s.hi] + " " + q[s.hi:])    // duplicate
+		add(q[:s.lo] + q[s.hi:])                            // delete
+		add(q[:s.hi] + " " + q[s.lo:s.hi] + " " + q[s.hi:]) // duplicate
 		for _, a := range c17Alphabet {
 			add(q[:s.lo] + a + q[s.hi:]) // replace
 		}
